@@ -372,12 +372,30 @@ func run(s Script, v *vt.V) {
 	}
 	if s.WrongDigest {
 		v.Class("wrong-digest")
-		wrong := digest.FromBytes(append([]byte("not:"), content...))
+		other := append([]byte("not:"), content...)
+		wrong := digest.FromBytes(other)
+		held := len(s.Writes)%2 == 1
+		if held {
+			// the wrong digest is that of a blob the repository holds already
+			v.Class("wrong-digest-of-a-blob-held")
+			if _, err := reg.PushBlob(ctx, s.Repo, ociregistry.Descriptor{Digest: wrong, Size: int64(len(other)), MediaType: "application/octet-stream"}, bytes.NewReader(other)); err != nil {
+				fail("", "pushing another blob beside the upload: %v", err)
+				return
+			}
+		}
 		if _, err := w.Commit(wrong); err == nil {
-			fail("wrong-digest-accepted", "Commit with a digest of other content succeeded")
+			fail("wrong-digest-accepted", "Commit with a digest of other content (held by the repository: %v) succeeded", held)
 			return
 		}
-		for _, d := range []digest.Digest{wrong, dg} {
+		check := []digest.Digest{wrong, dg}
+		if held {
+			check = check[1:]
+			if got, err := readBack(wrong); err != nil || !bytes.Equal(got["top"], other) {
+				fail("wrong-digest-stored", "after a commit refused for naming the digest of another blob, that blob reads back %d bytes, %v", len(got["top"]), err)
+				return
+			}
+		}
+		for _, d := range check {
 			if got, err := readBack(d); err == nil {
 				fail("wrong-digest-stored", "after a failed commit %s is retrievable (%d bytes)", d, len(got["top"]))
 				return
@@ -534,7 +552,7 @@ func genScript(t *rapid.T) Script {
 var prop = &vt.Prop[Script]{
 	ID:   "C04",
 	Name: "ChunkedUpload",
-	Rule: "content lengths {0,1,2,3, c-1,c,c+1, 2c-1,2c,2c+1, 3c+2 (c=8192); thorough also around 64 KiB} and small; partition into <=6 Write calls (sizes incl. 0, 1, c-1..c+1, larger than the content); chunk hint {-1,0,1,100,8191,8192,8193,20000}; any subset of write boundaries closed (a quarter of them closed twice, then asked Size and ID, which must return) +resumed with explicit offset or -1 (-1 with exactly one byte received excluded as stated); optional probe at size+delta with junk data that must be refused with ErrRangeInvalid (416 on every hop) and leave the upload unaltered, also when the wrong-offset writer is given a Write of no bytes first, when a second handle is opened on the session (at -1 or at the right offset) between opening the wrong-offset writer and its first Write, and when the refused writer is closed only once the upload has reached the offset it aimed at; right/wrong commit digest; a commit asked of a handle that was closed first (it may refuse; success means the blob is there); optionally the n-th data-carrying request of the caller's client fails before it is sent and the caller repeats the failed Write / Commit (nothing buffered may get lost); stacks {mem, 1 hop, 2 hops, unify(mem,mem) both policies, http over unify, unify over http, debug+http(NoSinglePost)+debug}; oracle = Size() after every step, commit descriptor, bytes read back from the top and from every member registry; non-trivial = >=1 resume, >=2 writes or length <= 2; distinct = whole script",
+	Rule: "content lengths {0,1,2,3, c-1,c,c+1, 2c-1,2c,2c+1, 3c+2 (c=8192); thorough also around 64 KiB} and small; partition into <=6 Write calls (sizes incl. 0, 1, c-1..c+1, larger than the content); chunk hint {-1,0,1,100,8191,8192,8193,20000}; any subset of write boundaries closed (a quarter of them closed twice, then asked Size and ID, which must return) +resumed with explicit offset or -1 (-1 with exactly one byte received excluded as stated); optional probe at size+delta with junk data that must be refused with ErrRangeInvalid (416 on every hop) and leave the upload unaltered, also when the wrong-offset writer is given a Write of no bytes first, when a second handle is opened on the session (at -1 or at the right offset) between opening the wrong-offset writer and its first Write, and when the refused writer is closed only once the upload has reached the offset it aimed at; right/wrong commit digest (the wrong one also that of a blob the repository holds already); a commit asked of a handle that was closed first (it may refuse; success means the blob is there); optionally the n-th data-carrying request of the caller's client fails before it is sent and the caller repeats the failed Write / Commit (nothing buffered may get lost); stacks {mem, 1 hop, 2 hops, unify(mem,mem) both policies, http over unify, unify over http, debug+http(NoSinglePost)+debug}; oracle = Size() after every step, commit descriptor, bytes read back from the top and from every member registry; non-trivial = >=1 resume, >=2 writes or length <= 2; distinct = whole script",
 	Gen:  genScript,
 	Run:  run,
 }
